@@ -104,8 +104,10 @@ func Verif_C13_GetOverride() {
 	// reference-typed overridables: a custom-field map and a key-id pointer
 	oField := verifWord("ov.field", 1)
 	od.Deb.Fields = map[string]string{"B": oField}
-	oKey := verifWord("ov.keyid", 2)
+	oKey := v.NondetString("ov.keyid", 2) // may be the empty string: a pointer to "" is an EMPTY override value
+	v.Assume(v.AllIn(oKey, "a-z"))
 	od.Deb.Signature.KeyID = &oKey
+	bKey := *cfg.Deb.Signature.KeyID
 	// an override block of another format must not matter
 	orpm := &Overridables{Depends: []string{verifWord("rpm.dep", 2)}}
 	orpm.Scripts.PostInstall = verifWord("rpm.post", 2)
@@ -145,7 +147,11 @@ func Verif_C13_GetOverride() {
 		v.Assert(info.Deb.Compression == bComp, "empty-format-block-field-keeps-the-base")
 	}
 	v.Assert(info.Deb.Fields["B"] == oField && info.Deb.Fields["A"] == bField, "map-field-merged-key-by-key")
-	v.Assert(info.Deb.Signature.KeyID != nil && *info.Deb.Signature.KeyID == oKey, "pointer-field-overridden")
+	if oKey != "" {
+		v.Assert(info.Deb.Signature.KeyID != nil && *info.Deb.Signature.KeyID == oKey, "pointer-field-overridden")
+	} else {
+		v.Assert(info.Deb.Signature.KeyID != nil && *info.Deb.Signature.KeyID == bKey, "pointer-to-empty-override-keeps-the-base")
+	}
 	if oUmask != 0 {
 		v.Assert(uint32(info.Umask) == oUmask, "umask-overridden")
 	} else {
